@@ -142,8 +142,11 @@ class SPIDeviceInterface(Elaboratable):
                     m.d.sync += current_rx.eq(Cat(current_rx[1:], self.spi.sdi))
 
                 # If we're just completing a word, handle I/O.
+                # (We restart our bit count for the next word; the counter only wraps around
+                # by itself for word sizes that are powers of two.)
                 with m.If(bit_count + 1 == self.word_size):
                     m.d.sync += [
+                        bit_count          .eq(0),
                         self.word_accepted .eq(1),
                         current_tx         .eq(self.word_out)
                     ]
